@@ -50,8 +50,10 @@ type Env struct {
 	RetainCap  int // 0 = 64
 	// LastFailedWriteApplied: the last write that failed with an injected error turned out to be applied
 	LastFailedWriteApplied bool
-	// LastWriteFailed: the Put/Delete just executed returned the injected I/O error
+	// LastWriteFailed: the Put/Delete/Sync just executed returned the injected I/O error
 	LastWriteFailed bool
+	// UncleanClose: the last Close failed with the injected error (the next Open must recover)
+	UncleanClose bool
 	// IOFaultSeen (sticky, carried over restarts): an I/O error was injected into a record append. pogreb
 	// leaves the stored part of that record behind the logical end of the segment; if nothing overwrites
 	// it (the segment is sealed next), the file ends in bytes that are not a record. No listed property
@@ -222,12 +224,16 @@ func (e *Env) Do(op Op) *Violation {
 	if e.OnAPI != nil {
 		e.OnAPI(e.nAPI, op)
 	}
-	if op.K != "put" && op.K != "del" && op.K != "iofail" {
-		e.FS.DisarmWriteFault() // the fault is meant for the record append of the write that follows its marker
+	switch op.K {
+	case "put", "del", "iofail", "syncfail", "closefail":
+	case "sync", "close":
+		// a sync / meta fault armed by the marker right before stays armed
+	default:
+		e.FS.DisarmWriteFault() // a fault is meant for the operation that follows its marker
 	}
 	e.LastWriteFailed = false
 	defer func() {
-		if op.K == "put" || op.K == "del" {
+		if op.K == "put" || op.K == "del" || op.K == "sync" || op.K == "close" {
 			e.FS.DisarmWriteFault()
 		}
 	}()
@@ -237,7 +243,17 @@ func (e *Env) Do(op Op) *Violation {
 			return violf("open-failed", "Open: %v", err)
 		}
 	case "close":
+		fired := e.FS.FaultsFired
 		if err := e.DB.Close(); err != nil {
+			if e.FS.FaultsFired > fired {
+				// the injected write error made Close fail: the session did not complete Close. The process
+				// dies; the next Open must recover and find everything that was acknowledged.
+				e.Probes["close_failed_by_injected_error"]++
+				e.FS.Crash()
+				e.DB = nil
+				e.UncleanClose = true
+				return nil
+			}
 			return violf("api-error", "Close: %v", err)
 		}
 		e.DB = nil
@@ -329,7 +345,14 @@ func (e *Env) Do(op Op) *Violation {
 	case "items":
 		return e.CheckScan()
 	case "sync":
+		fired := e.FS.FaultsFired
 		if err := e.DB.Sync(); err != nil {
+			if e.FS.FaultsFired > fired {
+				// the injected fsync error: this Sync is not a sync point; the next successful one must be
+				e.Probes["sync_failed_by_injected_error"]++
+				e.LastWriteFailed = true
+				return nil
+			}
 			return violf("api-error", "Sync: %v", err)
 		}
 	case "compact":
@@ -347,6 +370,14 @@ func (e *Env) Do(op Op) *Violation {
 		if v := e.CheckRetained("after Compact"); v != nil {
 			return v
 		}
+	case "syncfail":
+		// fault marker: the next fsync of a segment file fails (EIO)
+		e.FS.ArmSyncFault()
+		e.Probes["sync_fault_armed"]++
+	case "closefail":
+		// fault marker: the op.Size-th write to a metadata file fails (ENOSPC) - meant for the Close that follows
+		e.FS.ArmMetaFault(1 + op.Size%6)
+		e.Probes["close_fault_armed"]++
 	case "iofail":
 		// fault marker: the next record append to a segment fails (ENOSPC) after op.Size%len bytes
 		e.FS.ArmWriteFault(op.Size)
